@@ -1275,6 +1275,12 @@ def c18(v, tier, seed):
             fr = re.findall(r"#\d+ 0x[0-9a-f]+ in (\w+) ([^\s:]+):(\d+)", body)
             fr = [x for x in fr if "/harness/" not in x[1]] or fr
             if m: rep_by_cmd[int(num)] = "%s%s" % (m.group(1)[:90], (" in %s %s:%s" % (fr[0][0], os.path.basename(fr[0][1]), fr[0][2])) if fr else "")
+        if lk == "can":
+            # functional model of the listener: what it forwards for ANY of these datagrams (CanListener.tla)
+            import listeners
+            can_obs = [(cse["m0"], cse["m1"], [cse["bytes"]] + ([g["bytes"]] if kind == "then-good" else []), o)
+                       for (kind, cse, g), o in zip(meta, obs) if kind in ("alone", "single", "then-good")]
+            listeners.can_listener_function(v, wd, "C18", can_obs, q)
         alone = {}
         for (kind, cse, g), o in zip(meta, obs):
             if kind == "alone":
